@@ -143,6 +143,9 @@ func c12Scenarios(tier string, withClose bool) []*h.Scenario {
 			reqStep("POST mount from another repository", func(w *h.World) h.Req {
 				return h.Req{Method: "POST", Path: "/v2/r2/blobs/uploads/", Query: "mount=" + url.QueryEscape(f.Items["l1"].Dig) + "&from=r"}
 			}),
+			reqStep("POST mount from another repository that lacks the blob", func(w *h.World) h.Req {
+				return h.Req{Method: "POST", Path: "/v2/r2/blobs/uploads/", Query: "mount=" + url.QueryEscape(f.Items["l2"].Dig) + "&from=r"}
+			}),
 			reqStep("PUT manifest with subject", func(w *h.World) h.Req {
 				return h.Req{Method: "PUT", Path: "/v2/r/manifests/" + f.Items["A2"].Dig, Body: f.Items["A2"].Data, Header: map[string]string{"Content-Type": mtImg}}
 			}),
